@@ -3,7 +3,6 @@
 package vlib
 
 import (
-	"cmp"
 
 	v "github.com/emirpasic/gods/v2/zzvsup"
 )
@@ -67,10 +66,12 @@ func Cmp(a, b int) int {
 		// an arbitrary positive magnitude per call: every comparator of the `a - b` style at once
 		m = v.IntIn("cm", 1, 1<<40)
 	}
+	ka, kb := key(a), key(b)
 	if v.CfgOr("cmp", 0) == 1 {
-		return m * cmp.Compare(key(b), key(a))
+		ka, kb = kb, ka
 	}
-	return m * cmp.Compare(key(a), key(b))
+	// the result is ONE term (no fork inside the comparator): a caller that only asks "> 0" forks two ways, not three
+	return v.Ite(ka < kb, 0-m, v.Ite(ka > kb, m, 0))
 }
 
 // Item is one element of an in-order sequence: a forced node (K,V) or an unexpanded subtree (T != nil).
@@ -535,7 +536,7 @@ func KeysOf(keys []int) []Item {
 // HasInt: x occurs in s (forks on symbolic equality, consistently with the path condition).
 func HasInt(s []int, x int) bool {
 	for _, y := range s {
-		if y == x {
+		if Equiv(y, x) { // == unless a (coarse) comparator is configured
 			return true
 		}
 	}
@@ -603,7 +604,7 @@ func SortPairs(keys, vals []int) ([]int, []int) {
 	for i, k := range keys {
 		pos := len(ok)
 		for j, y := range ok {
-			if k < y {
+			if Less(k, y) {
 				pos = j
 				break
 			}
